@@ -74,6 +74,9 @@ pub struct Target {
     pub scale_small: bool,
     /// log2 of the largest haystack in cost episodes
     pub cost_max_log2: u32,
+    /// C16: log2 of the number of searches made with one long-lived finder in
+    /// the rare long-history episodes (0 = none)
+    pub long_history_log2: u32,
 }
 
 struct B {
@@ -1106,6 +1109,36 @@ pub fn generate(profile: Profile, verif_seed: u64, index: u64, tgt: Target) -> F
                     b.scn_sub_iter(t, mh, mn, true);
                 }
             }
+        }
+        Profile::C16
+            if tgt.long_history_log2 > 0
+                && (index == 77 || (tgt.long_history_log2 < 26 && index % 1_048_576 == 77)) =>
+        {
+            // one finder, one short haystack, a very long call history: state
+            // that accumulates in the finder across searches (counters that
+            // only wrap or saturate after hundreds of millions of calls) shows
+            let alpha = vec![b'e', b'z', b'q'];
+            let nlen = b.rng.range(33, 48);
+            let mut needle = inputs::word(&mut b.rng, nlen, &alpha);
+            needle[0] = b'z';
+            needle[1] = b'q';
+            let mut hay = inputs::word(&mut b.rng, 64, &alpha);
+            hay[10] = b'z';
+            hay[11] = b'q';
+            let needle = b.buf(needle, None);
+            let hay = b.buf(hay, None);
+            // no prefilter candidate at all: the prefilter stays "effective"
+            // for ever, so whatever it counts grows with every search
+            let quiet = b.buf(vec![b'e'; 64], None);
+            let f = b.slot(0);
+            let cfg = FinderCfg { prefilter: true, ranker: Ranker::Default };
+            b.push(0, Op::FinderNew { rev: false, needle, cfg, dst: f });
+            let times = (1u64 << tgt.long_history_log2) + (1 << 20);
+            b.push(0, Op::FinderRepeat { f, hay: quiet, times });
+            b.push(0, Op::FinderRepeat { f, hay, times: 1 << tgt.long_history_log2.min(22) });
+            b.push(0, Op::FinderFind { f, hay, via_ref: false });
+            b.push(0, Op::FinderFind { f, hay: quiet, via_ref: false });
+            b.push(0, Op::Drop { s: f });
         }
         Profile::C16 => {
             let k = b.rng.range(1, 2);
